@@ -321,3 +321,28 @@ def _env_attr(E, v, name):
 
 
 LIB.value_attr_handlers.insert(0, _env_attr)
+
+
+# ------------------------------------------ nested list -> array conversion
+def view_tensor(v):
+    """np/jnp.asarray(nested list of numbers) = the array with the same entries"""
+    v = _as_view(v)
+    if v.root.kind != "num":
+        raise Unsupported("array from a nested list of lists-of-floats (ragged)")
+    return T.index(v.root.t, tuple(v.prefix)) if v.prefix else v.root.t
+
+
+def _wrap_asarray(path):
+    old = LIB.funcs.get(path)
+    if old is None:
+        return
+
+    @LIB.fn(path, doc="asarray(nested list) = array with the same entries (value-preserving conversion)")
+    def asarray(E, a, *rest, **kw):
+        if isinstance(a, (PyTable, PyTableView)):
+            a = view_tensor(a)
+        return old.fn(E, a, *rest, **kw)
+
+
+for _p in ("jax.numpy.asarray", "jax.numpy.array", "numpy.asarray", "numpy.array"):
+    _wrap_asarray(_p)
